@@ -98,3 +98,84 @@ def fft_reset_stage(scratch, tier, log):
         except (rp.ParseError, Undecided) as e:
             obs.append(Obligation("%s.reset :: storage zeroed" % T, "extraction", UNDECIDED, detail=str(e), functions=[fn]))
     return obs
+
+
+# ------------------------------------------------------------------------------------------------ C14: FFT filter geometry
+def fft_filter_stage(scratch, tier, log):
+    """C14 (FFT adapters): the reported delay fft_size_out/2 (Verus, Tier C) is the true lag only if the anti-aliasing filter that
+    FftResampler::new builds is the `fft_size_in`-tap windowed sinc laid out from tap 0 of the 2*fft_size_in block: its centre - the
+    group delay - is then fft_size_in/2 input frames == fft_size_out/2 output frames.  Contract of the real constructor, for every
+    fft_size_in >= 1 (Z3 on the extracted size expressions; kernel symmetry of make_sincs itself stays trusted: L-centre)."""
+    import z3
+    from . import smt
+    obs = []
+    fn = "FftResampler::new"
+    name = lambda s: "FftResampler.new :: C14 %s" % s
+    try:
+        src = scratch.read("synchro.rs")
+        sig, body, l0, _ = rp.find_fn(src, "new", ["FftResampler<"])
+        env = smt.Env("slack")
+        n_in, n_out = z3.Int("fft_size_in"), z3.Int("fft_size_out")
+        env.vars["fft_size_in"] = smt.Val(n_in, "usize")
+        env.vars["fft_size_out"] = smt.Val(n_out, "usize")
+        env.assumes += [n_in >= 1, n_out >= 1, n_in < 2 ** 24, n_out < 2 ** 24]
+        consts = dict((m.group(1), int(m.group(2).replace("_", ""))) for m in re.finditer(r"^\s*(?:pub(?:\([a-z]+\))?\s+)?const\s+([A-Z_0-9]+)\s*:\s*usize\s*=\s*([0-9_]+)\s*;", src, re.M))
+        for k_, v_ in consts.items():
+            env.vars[k_] = smt.Val(z3.IntVal(v_), "usize")
+        sinc_len = sinc_factor = take = None
+        fill_ok = None
+        for st in body[1]:
+            calls = [n for n in rp.walk(st) if n[0] == "call" and rp.show(n[1]).replace(" ", "").startswith("make_sincs")]
+            if calls:
+                sinc_len, sinc_factor = env.ev(calls[0][2][0]), env.ev(calls[0][2][1])
+                sinc_var = st[1][2][0] if st[0] == "let" and st[1][2] else "sinc"
+                continue
+            e = rp.strip_paren(st[1]) if st[0] == "expr" else None
+            if e is not None and e[0] == "for" and "filter_t" in rp.show(e[2]):
+                it = _norm(rp.show(e[2]))
+                m = re.fullmatch(r"filter_t\.iter_mut\(\)\.enumerate\(\)\.take\((.*)\)", it)
+                if not m:
+                    raise Undecided("filter fill loop in a form the recogniser does not know: %s" % rp.show(e[2]))
+                tk = [n for n in rp.walk(e[2]) if n[0] == "mcall" and n[2] == "take"][0]
+                take = env.ev(tk[3][0])
+                vars_ = e[1][2]
+                items = e[3][1] + ([("expr", e[3][2], False, 0)] if e[3][2] is not None else [])
+                bt = _norm(rp.show(items[0])) if len(items) == 1 else ""
+                fill_ok = len(vars_) == 2 and bool(re.fullmatch(r"\*%s=\(?%s\[0\]\[%s\]/.*" % (re.escape(vars_[1]), re.escape(sinc_var), re.escape(vars_[0])), bt.rstrip(";")))
+                continue
+            if st[0] == "let":
+                try:
+                    env.exec_stmt(st)
+                except (Undecided, KeyError, AttributeError, TypeError):
+                    for nme in st[1][2]:
+                        env.vars[nme] = smt.Val(None, "opaque")
+        if sinc_len is None or take is None:
+            raise Undecided("anchor lost: make_sincs call or filter fill loop not found in FftResampler::new")
+
+        def prove(label, goal):
+            s = z3.Solver()
+            s.set("timeout", 20000)
+            s.add(env.assumes)
+            s.add(z3.Not(goal))
+            r = s.check()
+            if r == z3.unsat:
+                obs.append(Obligation(name(label), "z3", DISCHARGED, 0.0, "complete", [fn], checks=1))
+            elif r == z3.sat:
+                m = s.model()
+                cex = {"fft_size_in": str(m.eval(n_in, True)), "fft_size_out": str(m.eval(n_out, True))}
+                obs.append(Obligation(name(label), "z3", FAILED, 0.0, "complete", [fn], checks=1, counterexample=cex,
+                                      detail="does not hold, e.g. for fft_size_in = %s: the filter's centre is then not at fft_size_in/2 input frames and "
+                                             "output_delay() == fft_size_out/2 is not the lag of the output stream" % cex["fft_size_in"]))
+            else:
+                obs.append(Obligation(name(label), "z3", UNDECIDED, 0.0, "complete", [fn], checks=1, detail="z3: unknown"))
+        if sinc_len.t is None or take.t is None or sinc_factor.t is None:
+            raise Undecided("filter length is not an integer expression of fft_size_in")
+        prove("the anti-aliasing filter has exactly fft_size_in taps (make_sincs length == fft_size_in, one sub-filter)",
+              z3.And(sinc_len.t == n_in, sinc_factor.t == 1))
+        prove("all fft_size_in taps are laid out from tap 0 of the FFT block (fill count == fft_size_in)", take.t == n_in)
+        obs.append(Obligation(name("tap n of the block is tap n of the windowed sinc (scaled), in order"), "syntactic",
+                              DISCHARGED if fill_ok else UNDECIDED, 0.0, "complete", [fn], checks=1,
+                              detail="" if fill_ok else "fill loop body in a form the recogniser does not know"))
+    except (rp.ParseError, Undecided, IndexError) as e:
+        obs.append(Obligation(name("filter geometry"), "extraction", UNDECIDED, detail=str(e), functions=[fn]))
+    return obs
